@@ -446,7 +446,9 @@ PROPS = {
                 "functions / recursive groups), 20% with a context read in 7 syntactic forms (direct, through functions, through "
                 "recursive groups), with and without a context type on the runtime; half of the graphs hold 1-2 constants of a zero-sized "
                 "type ((), or a record whose fields are all ()) whose initialiser only has an effect (zinit(id)), in four forms, "
-                "optionally mentioning a constant and mentioned by one: once each, in dependency order; every case is non-trivial",
+                "optionally mentioning a constant and mentioned by one: once each, in dependency order; the getters are called "
+                "twice, in half of the cases the second time after the package was dropped (the handles alone keep the "
+                "constants they read); every case is non-trivial",
         "jobs": [
             {"family": "constorder", "flavour": "release", "cases": {"quick": 12000, "thorough": 300000}},
             {"family": "constorder", "flavour": "debug", "cases": {"quick": 1500, "thorough": 30000}, "args": {"stream": "debug"}},
